@@ -569,6 +569,7 @@ static ssize_t ck_read(void *c, char *buf, size_t n)
     size_t avail = s->len - s->pos, take = n < avail ? n : avail;
     sim_step();
     simfd_stat_cookie_reads++;
+    if (s->failed) { fault_fired(FC_READ, FO_EIO); tr_printf("stream read -> EIO (unreadable)"); errno = EIO; return -1; }
     if (out == FO_EIO) { fault_fired(FC_READ, FO_EIO); tr_printf("stream read -> EIO"); s->failed = 1; errno = EIO; return -1; }
     if (out == FO_SHORT && take > 1) {
         size_t lim = (size_t)F_PARAM(f);
@@ -607,6 +608,17 @@ FILE *simfd_cookie_stream(const void *data, size_t len, int seekable, size_t sta
     s->data = malloc(len + 1);
     if (len) memcpy(s->data, data, len);
     s->len = len; s->pos = startpos > len ? len : startpos; s->seekable = seekable;
+    fp = fopencookie(s, "r", io);
+    if (fp) open_streams++;
+    return fp;
+}
+FILE *simfd_cookie_stream_unreadable(void)
+{
+    /* opens, but every read fails: a directory opened with "r", a file on a failed device */
+    cstream_t *s = calloc(1, sizeof(*s));
+    cookie_io_functions_t io = { ck_read, NULL, ck_seek, ck_close };
+    FILE *fp;
+    s->data = malloc(1); s->failed = 1;
     fp = fopencookie(s, "r", io);
     if (fp) open_streams++;
     return fp;
